@@ -22,6 +22,3 @@ func (a *API) VerifCacheLen() int {
 	defer a.tokenMu.Unlock()
 	return len(a.tokenMap)
 }
-
-// VerifTokenExpiry is the cache window.
-const VerifTokenExpiry = tokenExpiry
